@@ -167,22 +167,6 @@ var forms64 = []string{"add", "addmany", "range", "opt", "cowclone", "stream", "
 
 func build64(r *Rng, m *ISet, form string) (*BM64, string) {
 	b := roaring64.New()
-	addMany := func(dst *roaring64.Bitmap) {
-		var buf []uint64
-		for _, v := range m.iv {
-			if v.Hi-v.Lo > 100000 {
-				dst.AddRange(v.Lo, v.Hi+1)
-				continue
-			}
-			for x := v.Lo; ; x++ {
-				buf = append(buf, x)
-				if x == v.Hi {
-					break
-				}
-			}
-		}
-		dst.AddMany(buf)
-	}
 	// a range ending at 2^64-1 cannot be expressed as [s,e): add the last value separately
 	addRange := func(dst *roaring64.Bitmap, lo, hi uint64) {
 		if hi == maxU64 {
@@ -193,6 +177,22 @@ func build64(r *Rng, m *ISet, form string) (*BM64, string) {
 			hi--
 		}
 		dst.AddRange(lo, hi+1)
+	}
+	addMany := func(dst *roaring64.Bitmap) {
+		var buf []uint64
+		for _, v := range m.iv {
+			if v.Hi-v.Lo > 100000 {
+				addRange(dst, v.Lo, v.Hi)
+				continue
+			}
+			for x := v.Lo; ; x++ {
+				buf = append(buf, x)
+				if x == v.Hi {
+					break
+				}
+			}
+		}
+		dst.AddMany(buf)
 	}
 	keep := []any{}
 	switch form {
